@@ -181,3 +181,7 @@ Proof.
   assert (Hcons : VB_PAIR <= COST_CONS) by (vm_compute; discriminate).
   nia.
 Qed.
+
+(* the translated WRAPPER_VBYTES is the interned size of the wrapper (q . (() . ())) around an empty list *)
+Lemma wrapper_vbytes_value : interned_vbytes (wrap_generator nil) = WRAPPER_VBYTES.
+Proof. vm_compute. reflexivity. Qed.
